@@ -2,9 +2,11 @@ pub mod c01;
 pub mod c02;
 pub mod c03;
 pub mod c04;
+pub mod c05;
 pub mod c12;
 pub mod c13;
 pub mod c20;
+pub mod tcp;
 
 use crate::report::{Args, Report};
 
@@ -15,6 +17,9 @@ pub fn dispatch(args: &Args, rep: &mut Report) -> bool {
         "c02" => c02::run(args, rep),
         "c03" => c03::run(args, rep),
         "c04" => c04::run(args, rep),
+        "c05" => c05::run(args, rep),
+        "c05tcp" => tcp::run(args, rep),
+        "serve" => tcp::serve(args),
         "c12" => c12::run(args, rep),
         "c13" => c13::run(args, rep),
         "c20" => c20::run(args, rep),
